@@ -272,6 +272,7 @@ def run(ctx):
     d11_cpuid_leaf_guard(db, rep)
     d12_orcc_target_honoured(db, rep)
     d13_xcr0_all_state_bits(db, rep)
+    d14_env_before_detection(db, rep)
 
     # ---- D3 executability ---------------------------------------------------
     want_exec = {"sse": ("orcprogram-sse", "sse_is_executable", ["ORC_TARGET_SSE_SSE2"]),
@@ -635,3 +636,52 @@ def request_reaches_compiler(db, rep, rule):
                   "%s hands its target to %s on every path" % (fn10, calls10[0].name),
                   "%s %s: a request for a particular target (by name, by ORC_TARGET, or the default after a by-name compile) then leaves whatever code the "
                   "program already carried in place and reports success" % (fn10, bad10), line=f10.line)
+
+
+
+def d14_env_before_detection(db, rep, rule="D14-ENV-BEFORE-DETECTION"):
+    """The feature masks of ORC_CODE (`-avx2`, `-sse41` ...) are applied by the CPU detection of each back end, which asks
+    _orc_compiler_flag_in_list; the list is filled by _orc_compiler_init.  Detection runs once, from the back end's init function,
+    so in orc_init the call that fills the list must come before every call that can reach a reader of it - otherwise a masked
+    feature stays set, the back end stays executable and is chosen as the default although the user ruled it out."""
+    from callgraph import CallGraph
+    G = "_orc_compiler_flag_list"
+    writers, readers = set(), set()
+    for f in db.all_functions():
+        if not f.relfile.startswith("orc/") or f.body is None:
+            continue
+        w = r = False
+        for e in f.walk():
+            if e.k == "DeclRefExpr" and e.name == G:
+                par = e.parent
+                while par is not None and par.k in ("ImplicitCastExpr", "ParenExpr"):
+                    par = par.parent
+                if par is not None and par.k == "BinaryOperator" and par.op == "=" and any(x is e for x in par.c[0].walk()):
+                    w = True
+                else:
+                    r = True
+        if w:
+            writers.add(f.name)
+        elif r:
+            readers.add(f.name)
+    if not writers or not readers:
+        raise AnalysisBroken("writers %s / readers %s of %s" % (sorted(writers), sorted(readers), G))
+    oi = db.func("orc_init", "orc")
+    rep.saw(oi)
+    cg = CallGraph(db)
+    calls = [c for c in oi.calls() if c.name and db.has_func(c.name)]
+    wcalls, rcalls = [], []
+    for c in calls:
+        reach = {g.name for g in cg.reachable([c.name])}
+        if reach & writers:
+            wcalls.append(c)
+        elif reach & readers:
+            rcalls.append(c)
+    if len(wcalls) != 1 or len(rcalls) < 2:
+        raise AnalysisBroken("orc_init: %d calls fill %s, %d calls can read it" % (len(wcalls), G, len(rcalls)))
+    for c in rcalls:
+        rep.check(oi.dominates(wcalls[0], c), rule, where(oi), "%s-before-%s" % (wcalls[0].name, c.name),
+                  "the ORC_CODE list is filled before this back end's CPU detection can ask it",
+                  "orc_init calls %s (line %s), whose CPU detection reads the ORC_CODE flag list, without %s having run before: feature masks such as "
+                  "`-avx2` are never applied, the masked back end stays executable and becomes the default target" % (c.name, c.line, wcalls[0].name), line=c.line)
+    return len(rcalls)
